@@ -403,4 +403,84 @@ theorem Emits.newPackets {f : Nat} {ps ps' : PSend.State} {l : List Pending} (h 
       simp [List.drop_append]
     rw [hd, List.map_append, hmap, hnp]
 
+/-! ### the ghost replay of the `emit` calls of a flush -/
+
+theorem dropStale_idem (f : Nat) (q q' : List QEntry) (t t' : Nat)
+    (h : dropStale f q t = .ok (q', t')) : dropStale f q' t' = .ok (q', t') := by
+  obtain ⟨_, _, _, h3, _⟩ := dropStale_prefix f q q' t t' h
+  cases q' with
+  | nil => rfl
+  | cons x rest =>
+    have hx : ¬ Stale f x := h3 x rest rfl
+    unfold dropStale
+    rw [if_neg (show ¬ (x.mode = .timeSensitive ∧ x.flushId ≠ f) from hx)]
+
+/-- Once `emit_packet` returns nothing it keeps returning nothing (the queue head is not stale any
+more, and the window / allocation test fails again). -/
+theorem emit_none_again (s s' : PSend.State) (f : Nat) (h : emit s f = .ok (s', none)) :
+    emit s' f = .ok (s', none) := by
+  unfold emit at h
+  split at h
+  · cases h
+  · rename_i queue total hds
+    have hid := dropStale_idem f _ _ _ _ hds
+    simp only at h
+    split at h
+    · simp only [Except.ok.injEq, Prod.mk.injEq, and_true] at h
+      subst h
+      unfold emit
+      simp only [hid]
+    · rename_i q rest
+      split at h
+      · rename_i hwin
+        simp only [Except.ok.injEq, Prod.mk.injEq, and_true] at h
+        subst h
+        unfold emit
+        simp only [hid]
+        rw [if_pos hwin]
+      · rename_i hwin
+        split at h
+        · rename_i hal
+          simp only [Except.ok.injEq, Prod.mk.injEq, and_true] at h
+          subst h
+          unfold emit
+          simp only [hid]
+          rw [if_neg hwin, if_pos hal]
+        · split at h
+          · cases h
+          · simp only [Except.ok.injEq, Prod.mk.injEq, reduceCtorEq, and_false] at h
+
+/-- After an `emit` that returned nothing, a chain of `emit` calls returns nothing and stays put. -/
+theorem Emits.of_none {f : Nat} {ps1 ps2 : PSend.State} {l : List Pending} (h : Emits f ps1 ps2 l)
+    (hn : emit ps1 f = .ok (ps1, none)) : l = [] ∧ ps2 = ps1 := by
+  induction h with
+  | nil => exact ⟨rfl, rfl⟩
+  | cons he _ ih =>
+    rw [hn] at he
+    simp only [Except.ok.injEq, Prod.mk.injEq] at he
+    obtain ⟨rfl, rfl⟩ := he
+    obtain ⟨rfl, rfl⟩ := ih hn
+    exact ⟨rfl, rfl⟩
+
+/-- **The ghost replay is the chain.** For a chain of `emit` calls returning the packets `l`,
+`replayEmit l.length` started in the same state lists the history records `PSend.mkEmitted` of exactly
+these calls: the same packets, in the same order, with the send mode of the queue entry each came
+from. -/
+theorem replay_emits {f : Nat} {ps ps' : PSend.State} {l : List Pending} (h : Emits f ps ps' l) :
+    (replayEmit l.length ps f).map (·.uid) = l.map (·.uid) ∧
+    (replayEmit l.length ps f).length = l.length := by
+  induction h with
+  | nil => exact ⟨rfl, rfl⟩
+  | cons he hch ih =>
+    rename_i ps0 ps1 ps2 r l
+    cases r with
+    | none =>
+      obtain ⟨rfl, _⟩ := hch.of_none (emit_none_again _ _ _ he)
+      exact ⟨rfl, rfl⟩
+    | some v =>
+      obtain ⟨p, b⟩ := v
+      simp only [Option.map_some, Option.toList_some, List.cons_append, List.nil_append,
+        List.length_cons, replayEmit, he, List.map_cons]
+      exact ⟨by rw [ih.1]; rfl, by rw [ih.2]⟩
+
 end Uflow.HcSys
